@@ -946,6 +946,13 @@ pub fn live_client(rep: &mut Report, addr: std::net::SocketAddr, seed: u64, shar
         match exp {
             Some(exp) => {
                 let ok = judge(rep, &exp, &seen, &ctx);
+                if class.contains("|location:empty|") {
+                    rep.count("redirects-with-empty-location-sent", 1);
+                }
+                let empties = exp.headers.iter().filter(|(n, v)| n.as_str() != "location" && v.iter().any(|x| x.is_empty())).count();
+                if empties > 0 {
+                    rep.count("expected-headers-with-empty-value", empties as u64);
+                }
                 if exp.body.is_none() && resp.framing == "chunked" {
                     rep.violate(
                         format!("C12:body-not-empty:{}", exp.kind),
